@@ -54,7 +54,8 @@ type c02Exec struct {
 	mgr   kem.KubeEventsManager
 	cfg   *config.HookConfig
 
-	snapIDs map[string]int
+	snapIDs    map[string]int
+	nameBucket string
 	// per UpdateSnapshots call
 	armed     bool
 	mutateAt  map[int]bool
@@ -63,6 +64,9 @@ type c02Exec struct {
 	pending   [][2]string // lines to emit (op, answer) in chronological order
 	inconcl   bool
 
+	resMu    sync.Mutex
+	resolved []string // monitor ids the controller fetched from the manager during the last delegated read
+
 	prevOut []bctx.BindingContext // the contexts of the previous execution and how they read then
 	prevGot string
 
@@ -70,12 +74,11 @@ type c02Exec struct {
 	events []kemtypes.KubeEvent
 }
 
-func (x *c02Exec) groupID(g string) int {
-	if g == "" {
-		return 0
-	}
-	return int(g[1] - '0')
-}
+// group names are arbitrary strings too (compared byte by byte by the group -> includeSnapshotsFrom
+// expansion): the pool holds relatives of one name.
+var c02GroupIDs = map[string]int{"": 0, "g1": 1, "g2": 2, "G1": 3, "g1 ": 4, "g": 5}
+
+func (x *c02Exec) groupID(g string) int { return c02GroupIDs[g] }
 
 func (x *c02Exec) kube(name string) *c02Bind {
 	for i := range x.binds {
@@ -111,6 +114,67 @@ func (x *c02Exec) snapID(rendered string) int {
 	return id
 }
 
+// c02Mgr decorates the real kubeEventsManager handed to the KubernetesBindingsController: it records
+// which monitor the controller asks for (what the name -> monitor glue resolved).
+type c02Mgr struct {
+	kem.KubeEventsManager
+	x *c02Exec
+}
+
+func (m *c02Mgr) GetMonitor(id string) kem.Monitor {
+	m.x.resMu.Lock()
+	m.x.resolved = append(m.x.resolved, id)
+	m.x.resMu.Unlock()
+	return m.KubeEventsManager.GetMonitor(id)
+}
+
+// delegate: the real SnapshotsFor + the declaration numbers (1-based, configuration order) of the
+// monitors it fetched.
+func (k *c02KC) delegate(name string) ([]kemtypes.ObjectAndFilterResult, string) {
+	x := k.x
+	x.resMu.Lock()
+	x.resolved = nil
+	x.resMu.Unlock()
+	res := k.KubernetesBindingsController.SnapshotsFor(name)
+	x.resMu.Lock()
+	defer x.resMu.Unlock()
+	var got []string
+	for _, id := range x.resolved {
+		n := 0
+		for i, kc := range x.cfg.OnKubernetesEvents {
+			if kc.Monitor.Metadata.MonitorId == id {
+				n = i + 1
+			}
+		}
+		got = append(got, fmt.Sprint(n))
+	}
+	if len(got) == 0 {
+		return res, "-"
+	}
+	return res, strings.Join(got, "+")
+}
+
+// lookupLines: the name -> monitor resolution of one read as op + oracle (names as hex of their bytes).
+func (x *c02Exec) lookupLines(name, got string) {
+	var has []string
+	for i, kc := range x.cfg.OnKubernetesEvents {
+		if x.mgr.HasMonitor(kc.Monitor.Metadata.MonitorId) {
+			has = append(has, fmt.Sprint(i+1))
+		}
+	}
+	hs := joinStrsSep(has, ",")
+	x.pending = append(x.pending, [2]string{fmt.Sprintf("lookup x%x has=%s", name, hs), got})
+	x.pending = append(x.pending, [2]string{fmt.Sprintf("oracle lookup x%x has=%s got=%s", name, hs, got), "true"})
+}
+
+func (x *c02Exec) kbindsLine() string {
+	var parts []string
+	for i, kc := range x.cfg.OnKubernetesEvents {
+		parts = append(parts, fmt.Sprintf("x%x=%d", kc.BindingName, i+1))
+	}
+	return "kbinds " + joinStrsSep(parts, ",")
+}
+
 // c02KC decorates the real KubernetesBindingsController: SnapshotsFor may first change the cluster.
 type c02KC struct {
 	controller.KubernetesBindingsController
@@ -129,6 +193,7 @@ func (k *c02KC) SnapshotsFor(name string) []kemtypes.ObjectAndFilterResult {
 	}
 	mon, b := x.monitorOf(name)
 	var res []kemtypes.ObjectAndFilterResult
+	resolved := "-"
 	if mon != nil {
 		// let the informers of this binding catch up, so that the read is a quiet-cluster read.
 		// settle() may return at an instant where the snapshot looks right only because events are
@@ -140,14 +205,15 @@ func (k *c02KC) SnapshotsFor(name string) []kemtypes.ObjectAndFilterResult {
 			if inc {
 				x.inconcl = true
 			}
-			res = k.KubernetesBindingsController.SnapshotsFor(name)
+			res, resolved = k.delegate(name)
 			if inc || got != want || c02RenderSnap(res, b.spec.flt > 0) == want {
 				break
 			}
 		}
 	} else {
-		res = k.KubernetesBindingsController.SnapshotsFor(name)
+		res, resolved = k.delegate(name)
 	}
+	x.lookupLines(name, resolved)
 	id := x.names.Id(name)
 	if res == nil {
 		x.reads = append(x.reads, fmt.Sprintf("%d=nil", id))
@@ -421,7 +487,7 @@ func (x *c02Exec) yaml() string {
 	sb.WriteString("configVersion: v1\n")
 	common := func(b c02Bind) {
 		if b.group != "" {
-			fmt.Fprintf(&sb, "  group: %s\n", b.group)
+			fmt.Fprintf(&sb, "  group: %s\n", c02YamlStr(b.group))
 		}
 		if len(b.incl) > 0 {
 			fmt.Fprintf(&sb, "  includeSnapshotsFrom: %s\n", yamlList(b.incl))
@@ -438,7 +504,7 @@ func (x *c02Exec) yaml() string {
 				first = false
 			}
 			if b.name != "" {
-				fmt.Fprintf(&sb, "- name: %s\n", b.name)
+				fmt.Fprintf(&sb, "- name: %s\n", c02YamlStr(b.name))
 			} else {
 				fmt.Fprintf(&sb, "- allowFailure: false\n")
 			}
@@ -478,10 +544,12 @@ func (x *c02Exec) genBindings() {
 	rng := x.rng
 	nk := rng.Range(2, 4)
 	groups := []string{"", "", "g1", "g1", "g2"}
-	var knames []string
-	for i := 1; i <= nk; i++ {
-		knames = append(knames, fmt.Sprintf("kb%d", i))
+	if rng.Chance(40) {
+		groups = []string{"", "", "g1", "g1", "G1", "G1", "g1 ", "g", "g2"}
 	}
+	// binding names are arbitrary strings compared byte by byte: pairwise different, but related
+	knames, family, bucket := c02BindingNames(rng, nk)
+	x.nameBucket = bucket
 	someKube := func(max int) []string {
 		var res []string
 		for _, n := range knames {
@@ -513,6 +581,8 @@ func (x *c02Exec) genBindings() {
 			name = ""
 		} else if rng.Chance(15) {
 			name = knames[0] // a schedule binding may carry the name of a kubernetes binding
+		} else if rng.Chance(25) {
+			name = PickOne(rng, family) // ... or a relative of one (another type: need not be different)
 		}
 		x.binds = append(x.binds, c02Bind{typ: "s", name: name, group: PickOne(rng, groups), incl: someKube(3),
 			cron: fmt.Sprintf("*/%d * * * *", i+1)})
@@ -594,6 +664,7 @@ func c02ExecCase(c *Case, rng *Rng, preset []c02Bind) {
 		x.cfg.OnKubernetesEvents[i].Monitor.Logger = log.NewNop()
 	}
 	c.Op(x.declLine(), "ok")
+	c.Op(x.kbindsLine(), "ok")
 	for _, b := range x.binds {
 		if b.typ == "k" {
 			c.Op(b.spec.line(), "ok")
@@ -607,7 +678,7 @@ func c02ExecCase(c *Case, rng *Rng, preset []c02Bind) {
 	x.mgr = mgr
 	x.drainEvents(ctx)
 	hc := controller.NewHookController()
-	hc.InitKubernetesBindings(x.cfg.OnKubernetesEvents, mgr, log.NewNop())
+	hc.InitKubernetesBindings(x.cfg.OnKubernetesEvents, &c02Mgr{KubeEventsManager: mgr, x: x}, log.NewNop())
 	sm := schedulemanager.NewScheduleManager(ctx, log.NewNop())
 	hc.InitScheduleBindings(x.cfg.Schedules, sm)
 	hc.EnableScheduleBindings()
@@ -753,6 +824,9 @@ func c02ExecCase(c *Case, rng *Rng, preset []c02Bind) {
 	if unnamedSched(x.binds) {
 		c.Note("exec:same-named-schedule-bindings")
 	}
+	if x.nameBucket != "" {
+		c.Note("exec:" + x.nameBucket)
+	}
 	c.Nontrivial = len(combined) >= 2 && (grouped || maxIncl >= 1)
 	c.Desc = fmt.Sprintf("execution points over %d bindings (grouped=%v)", len(x.binds), grouped)
 }
@@ -769,6 +843,18 @@ func runC02Exec(r *Run) {
 			{typ: "s", name: "", cron: "*/4 * * * *", group: "g1"},
 		})
 		c.Desc = "corpus: unnamed schedule bindings share the name `schedule`; only the later ones include snapshots"
+		c.Nontrivial = true
+	})
+	// corpus: two kubernetes bindings whose names differ only in case, the later one with other objects
+	r.One(11, func(c *Case, rng *Rng) {
+		c02ExecCase(c, rng, []c02Bind{
+			{typ: "k", name: "settings", incl: []string{"Settings"}, spec: c02MonSpec{kind: 1, keep: true, flt: 1, nss: []int{1, 2}}},
+			{typ: "k", name: "Settings", spec: c02MonSpec{kind: 1, keep: true, flt: 1, nss: []int{3, 4}}},
+			{typ: "k", name: "SETTINGS ", group: "g1", spec: c02MonSpec{kind: 2, keep: false, flt: 0}},
+			{typ: "s", name: "settings", cron: "*/2 * * * *", incl: []string{"settings", "Settings"}},
+			{typ: "s", name: "", cron: "*/3 * * * *", group: "g1"},
+		})
+		c.Desc = "corpus: kubernetes bindings `settings`, `Settings`, `SETTINGS ` — names are compared byte by byte"
 		c.Nontrivial = true
 	})
 	r.Cases(100000, n, 0, func(c *Case, rng *Rng) { c02ExecCase(c, rng, nil) })
